@@ -175,6 +175,7 @@ func runC11(e *Env) {
 	}
 	cfg.CloseHow = e.P(2)
 	cfg.PostClose = 1 + e.P(3)
+	cfg.Closers = 1 + e.PB(2, 0.4) // sometimes two racing Close calls: a write after EITHER returned must fail
 	if e.P(3) == 2 {
 		cfg.CloseMode = 2 // writers overlap the Close; only the post-close calls are judged
 	}
